@@ -21,6 +21,9 @@ def main():
     if "--checks" in sys.argv:
         checks = sys.argv[sys.argv.index("--checks") + 1].split(",")
     meta = json.load(open(os.path.join(out, "meta.json")))
+    if "breaks" in meta and "property" not in meta:      # re-evaluation from /verif/seeded/<name>
+        meta = {"property": meta["breaks"], "summary": meta.get("summary"), "needs": meta.get("needs"),
+                "demo_cmd": meta.get("demo_cmd"), "ran": meta.get("agent_ran")}
     wt = f"/tmp/seedchk_{name}"
     sh(f"git -C /repo worktree remove --force {wt}")
     rc, o = sh(f"git -C /repo worktree add -q --detach {wt} HEAD")
@@ -78,11 +81,22 @@ def main():
     report["caught_by"] = [p for p, d in detected.items() if d["exit"] != 0]
     d = os.path.join(ROOT, "seeded", name)
     os.makedirs(d, exist_ok=True)
+    # merge with earlier evaluations of the same change (checks are strengthened over time)
+    old = {}
+    if os.path.exists(os.path.join(d, "meta.json")):
+        old = json.load(open(os.path.join(d, "meta.json")))
+    merged = dict(old.get("checks_run_against_it", {}))
+    merged.update(detected)
+    detected = merged
+    report["caught_by"] = sorted(p for p, x in detected.items() if x["exit"] == 1)
+    missed_first = sorted(set(old.get("missed_at_first_by", [])) | {p for p, x in old.get("checks_run_against_it", {}).items() if x["exit"] == 0})
     for f in ("patch.diff", "demo.diff"):
-        shutil.copyfile(os.path.join(out, f), os.path.join(d, f))
+        if os.path.abspath(out) != os.path.abspath(d):
+            shutil.copyfile(os.path.join(out, f), os.path.join(d, f))
     json.dump({"breaks": meta.get("property"), "summary": meta.get("summary"), "needs": meta.get("needs"),
                "demo_cmd": meta.get("demo_cmd"), "agent_ran": meta.get("ran"), "confirmed_by_us": report.get("confirmed"),
-               "our_confirmation": report["ran"], "checks_run_against_it": detected, "caught_by": report["caught_by"]},
+               "our_confirmation": report["ran"], "checks_run_against_it": detected, "caught_by": report["caught_by"],
+               "missed_at_first_by": missed_first},
               open(os.path.join(d, "meta.json"), "w"), indent=1)
     print(json.dumps({"confirmed": report.get("confirmed"), "caught_by": report["caught_by"]}))
 
